@@ -15,11 +15,13 @@
  */
 
 #include <unifex/v2/async_mutex.hpp>
+#include <unifex/detail/verif_hooks.hpp>
 
 namespace unifex::v2 {
 
 void async_mutex::process_queue() noexcept {
   while (true) {
+    UNIFEX_VERIF_YIELD("mutex.v2.pop");
     waiter_base* w = queue_.pop_front();
     if (w) {
       w->resume_(w);
@@ -27,17 +29,20 @@ void async_mutex::process_queue() noexcept {
     }
 
     // Queue empty — release the lock.
+    UNIFEX_VERIF_YIELD("mutex.v2.rel");
     locked_.store(false, std::memory_order_release);
 
     // Dekker fence: orders the release before the re-check.
     std::atomic_thread_fence(std::memory_order_seq_cst);
 
+    UNIFEX_VERIF_YIELD("mutex.v2.empty");
     if (queue_.empty()) {
       return;
     }
 
     // Item appeared after release.  Re-acquire; if another
     // thread beat us, they will drain.
+    UNIFEX_VERIF_YIELD("mutex.v2.reacq");
     if (locked_.exchange(true, std::memory_order_acq_rel)) {
       return;
     }
